@@ -311,3 +311,39 @@ func VerifC05DecoratedCollections() {
 	verifAssert(ok2 && out2 == out1, "C05/identity-not-idempotent decorated-collection")
 	verifCover("C05/decorated/end")
 }
+
+// VerifC05FilesKeepComments: `yq . f1 f2 [f3]` with one decoder, evaluator and printer for the whole run, as the
+// command has: every comment of every file is in the output - also when a later file holds nothing but comments,
+// or is empty, or starts with a separator.
+func VerifC05FilesKeepComments() {
+	texts := []string{"x: 1\n", "# only a comment\n# second line\n", "# c\nb: 2\n", "---\ny: 2\n", "", "a: 1\n---\n# mid\nb: 2\n", "--- # t\nz: 3\n", "# lone\n\n"}
+	n := 2 + verifChoice("files", 2)
+	prefs := NewDefaultYamlPreferences()
+	var sb strings.Builder
+	printer := NewPrinter(NewYamlEncoder(prefs), NewSinglePrinterWriter(bufio.NewWriter(c17Writer{&sb})))
+	ev := NewStreamEvaluator()
+	dec := NewYamlDecoder(prefs)
+	exp := vParse(".")
+	want := 0
+	any := uint(0)
+	for i := 0; i < n; i++ {
+		t := texts[verifChoice("file"+verifItoa(int64(i)), len(texts))]
+		want += strings.Count(t, "#")
+		docs, err := ev.Evaluate("f"+verifItoa(int64(i))+".yml", strings.NewReader(t), exp, printer, dec)
+		if err != nil {
+			verifFail("C05/files-evaluate-error")
+			return
+		}
+		any += docs
+	}
+	if any == 0 {
+		// no document in any file: the command evaluates the expression on nothing, comments of such a run are the
+		// recorded class [input without a document]
+		verifCover("C05/files-comments/no-document")
+		return
+	}
+	out := sb.String()
+	verifObserve("out", out)
+	verifAssert(strings.Count(out, "#") == want, "C05/a-file's-comments-are-missing-from-the-output-of-several-files")
+	verifCover("C05/files-comments/end")
+}
